@@ -10,7 +10,7 @@ prop = sys.argv[1]
 seed = int(os.environ.get("VERIF_SEED", "0"))
 src = repo_root() / "src"
 modules = {}
-for pat in mutants.ANCHORS.get(prop, []):
+for pat in mutants.ANCHORS.get(prop, []) + mutants.NEUTRAL_EXTRA.get(prop, []):
     parts = pat.split(".")
     for k in range(len(parts), 1, -1):
         f = (src / Path(*parts[:k])).with_suffix(".py")
